@@ -399,7 +399,20 @@ def ifilters(ctx):
         if args == "skip":
             args = ([n for n in names if rng.random() < 0.4],)
         fonts = [build_font(desc), build_font(desc)]
-        case = {"ifilter": cls.__name__, "args": jsonable(args), "font": jsonable(desc)}
+        uneven = cls is SkipExportGlyphsIFilter and (i // 3) % 2 == 0
+        if uneven:
+            # masters with different repertoires: the second (smaller) one holds two plain glyphs of the first plus a glyph of
+            # its own, which is on the skip list -- a removal from ANY master has to be reported
+            import copy as _copy
+            small = {k: v for k, v in desc.items() if k != "glyphs"}
+            small["glyphs"] = [_copy.deepcopy(g) for g in desc["glyphs"] if not g["components"]][:2] + [
+                {"name": "extra.part", "unicodes": [], "width": Fr(300), "components": [], "anchors": [],
+                 "contours": [[(Fr(0), Fr(0), "line"), (Fr(80), Fr(0), "line"), (Fr(40), Fr(90), "line")]]}]
+            small["glyphOrder"] = [g["name"] for g in small["glyphs"]]
+            fonts = [build_font(desc), build_font(small)]
+            args = (list(args[0]) + ["extra.part"],)
+            ctx.klass("ifilter: masters with different repertoires, a skipped glyph in the smaller one only")
+        case = {"ifilter": cls.__name__, "args": jsonable(args), "font": jsonable(desc), "uneven_masters": uneven}
         try:
             filt = cls(*args)
             src0 = [snap.font_snapshot(f) for f in fonts]
@@ -427,5 +440,5 @@ def ifilters(ctx):
             ctx.spec_failure(case, "%s wrote to a source font" % cls.__name__)
         if m2 != m3 or [snap.glyphset_snapshot(g) for g in g2] != [snap.glyphset_snapshot(g) for g in g3]:
             ctx.spec_failure(case, "%s: reused object differs from a fresh one (%r vs %r)" % (cls.__name__, sorted(m2), sorted(m3)))
-        if after[0] != after[1]:
+        if not uneven and after[0] != after[1]:
             ctx.spec_failure(case, "%s treated two identical masters differently" % cls.__name__)
